@@ -77,7 +77,8 @@ theorem oriOK_mir (net : PE.Net ℝ) (ob : NObs ℝ) : oriOK (mirNet net) (mirNO
 /-- `assemble net = .ok a`: the pass over ALL revised observations from the state the prologue leaves -/
 theorem assemble_inv (net : PE.Net ℝ) (a : Asm ℝ) (h : assemble net = .ok a) :
     ∃ r, passFrom (sigmaOf net) net.fuel (revisedObs net) (net.idx.resetPass (guardOf net)) = .ok r ∧ a.idx = r.idx ∧
-      a.np.clusters = npClusters net := by
+      a.np.clusters = npClusters net ∧ a.np.m = (revisedObs net).length ∧ a.np.n = r.idx.maxn ∧ a.np.m0 = net.m0 ∧
+      a.np.minx = [] := by
   unfold assemble linPass at h
   simp only [] at h
   split at h
@@ -93,7 +94,7 @@ theorem assemble_inv (net : PE.Net ℝ) (a : Asm ℝ) (h : assemble net = .ok a)
         have hpre : (revisedObs net).takeWhile (oriOK net) = revisedObs net :=
           (List.takeWhile_prefix _).eq_of_length hlen
         rw [hpre] at hp
-        exact ⟨_, hp, rfl, rfl⟩
+        exact ⟨_, hp, rfl, rfl, rfl, rfl, rfl, rfl⟩
       · cases hr
 
 /-- both inner calls leave the same index fields -/
@@ -206,27 +207,51 @@ theorem applySingular_mir : ∀ (ps : List (PE.Point ℝ)) (qs : List MinX.PtS),
     simp only [List.map_cons, applySingular, applySingular_mir ps qs]
     split <;> rfl
 
+/-! ### well-formed covariance matrices (the parser's guarantee), invariant along the call -/
+
+/-- every cluster carries a well-formed band matrix of the dimension of its observation list -/
+def WfAll (net : PE.Net ℝ) : Prop := ∀ c ∈ net.clusters, c.cov.WF ∧ c.cov.dim = c.obs.length
+
+theorem reviseFrom_shape (pts : List MinX.PtS) (all : List (Bool × MinX.Obs)) :
+    ∀ (k : Nat) (cs : List (PE.Cluster ℝ)), ∀ c' ∈ reviseFrom pts all k cs,
+      ∃ c ∈ cs, c'.cov = c.cov ∧ c'.obs.length = c.obs.length
+  | _, [], c', h => by simp [reviseFrom] at h
+  | k, c :: cs, c', h => by
+    rw [reviseFrom, List.mem_cons] at h
+    rcases h with rfl | h
+    · exact ⟨c, List.mem_cons_self .., rfl, List.length_map _⟩
+    · obtain ⟨c0, hc0, e⟩ := reviseFrom_shape pts all (k + 1) cs c' h
+      exact ⟨c0, List.mem_cons_of_mem _ hc0, e⟩
+
+theorem wfAll_revise (net : PE.Net ℝ) (h : WfAll net) : WfAll (revise net) := by
+  intro c' hc'
+  obtain ⟨c, hc, e1, e2⟩ := reviseFrom_shape _ _ _ _ c' hc'
+  obtain ⟨w, d⟩ := h c hc
+  rw [e1, e2]
+  exact ⟨w, d⟩
+
 /-! ### the recursion -/
 
 /-- NOT proved (the remaining hypothesis of the mirror theorem for `project_equations()`): for every network with regular
     observations, the numeric test of `singular_coords` on the x and y columns of a point gives the same verdict on the
     homogenised matrix of the mirrored inner call as on that of the original inner call -/
 def DegenInv : Prop :=
-  ∀ (net : PE.Net ℝ) (a a' : Asm ℝ) (h h' : Ls.Net.Hom ℝ), RegAll net →
+  ∀ (net : PE.Net ℝ) (a a' : Asm ℝ) (h h' : Ls.Net.Hom ℝ), RegAll net → WfAll net →
     assemble net = .ok a → assemble (mirNet net) = .ok a' →
     Ls.Net.prepare a.np = .ok h → Ls.Net.prepare a'.np = .ok h' →
     ∀ p : Nat, SingularCoords.degenTest h'.Ad (idxFn a.idx (.x p)) (idxFn a.idx (.y p)) =
       SingularCoords.degenTest h.Ad (idxFn a.idx (.x p)) (idxFn a.idx (.y p))
 
 theorem peLoop_mir (hdeg : DegenInv) : ∀ (fuel : Nat) (net : PE.Net ℝ) (rm : List String)
-    (np np' : Ls.Net.NetProblem ℝ) (u u' : Unknowns ℝ), RegAll net →
+    (np np' : Ls.Net.NetProblem ℝ) (u u' : Unknowns ℝ), RegAll net → WfAll net →
     peLoop fuel net rm = .ok (np, u) → peLoop fuel (mirNet net) rm = .ok (np', u') →
     u'.net = { mirNet u.net with idx := u.net.idx } ∧ u'.removed = u.removed ∧ np'.minx = np.minx ∧ RegAll u.net
-  | 0, _, _, _, _, _, _, _, h, _ => by simp [peLoop] at h
-  | fuel + 1, net, rm, np, np', u, u', hreg, h, h' => by
+  | 0, _, _, _, _, _, _, _, _, h, _ => by simp [peLoop] at h
+  | fuel + 1, net, rm, np, np', u, u', hreg, hwf, h, h' => by
     simp only [peLoop] at h h'
     rw [revise_mir] at h'
     have hreg1 : RegAll (revise net) := regAll_revise net hreg
+    have hwf1 : WfAll (revise net) := wfAll_revise net hwf
     cases hA : assemble (revise net) with
     | error e => rw [hA] at h; cases h
     | ok a =>
@@ -250,7 +275,7 @@ theorem peLoop_mir (hdeg : DegenInv) : ∀ (fuel : Nat) (net : PE.Net ℝ) (rm :
               unfold SingularCoords.singularCoords
               congr 1
               funext p
-              exact hdeg (revise net) a a' hh hh' hreg1 hA hA' hP hP' p
+              exact hdeg (revise net) a a' hh hh' hreg1 hwf1 hA hA' hP hP' p
             rw [hsc, ptsOf_mir, hidx] at h'
             by_cases hb : (SingularCoords.singularCoords hh.Ad (idxFn a.idx) (ptsOf (revise net))).1 = true
             · rw [if_pos hb] at h h'
@@ -265,7 +290,7 @@ theorem peLoop_mir (hdeg : DegenInv) : ∀ (fuel : Nat) (net : PE.Net ℝ) (rm :
                 rw [applySingular_mir]
                 rfl
               rw [e] at h'
-              exact peLoop_mir hdeg fuel _ _ np np' u u' (regAll_step _ _ _ hreg1) h h'
+              exact peLoop_mir hdeg fuel _ _ np np' u u' (regAll_step _ _ _ hreg1) (fun c hc => hwf1 c hc) h h'
             · rw [if_neg hb] at h h'
               injection h with h; injection h' with h'
               simp only [Prod.mk.injEq] at h h'
